@@ -42,6 +42,11 @@ def main():
     DW.uuid = UuidMod
     res = {"pid": os.getpid()}
     try:
+        if a.get("other_first"):
+            # this process has written *another* dataset with a multi-writer call before (same attribute names, its own directories)
+            other = sp.mk(Path(str(root) + "_other"), fmt=a["fmt"], eps=a["eps"])
+            other.write_multiprocessing(feed_writer=feed, custom_arguments=[([[0, [900000, 900001]]], 0), ([[1, [900002]]], 0)],
+                                        single_process=a["single"], consistency_check=False)
         out = ds.write_multiprocessing(feed_writer=feed, custom_arguments=[(p, d) for p, d in zip(a["plans"], a["delays"])],
                                        single_process=a["single"], consistency_check=False)
         res["returns"] = out
